@@ -387,13 +387,13 @@ class Executor:
         if v is None:
             return {"NoneType"}
         if isinstance(v, bool) or is_bool(v):
-            return {"bool", "int"}
+            return {"bool", "int", "Number"}
         if is_int(v) or isinstance(v, int):
-            return {"int"}
+            return {"int", "Number"}
         if is_real(v):
-            return {"float"}
+            return {"float", "Number"}
         if isinstance(v, CVal):
-            return {"complex"}
+            return {"complex", "Number"}
         if isinstance(v, str):
             return {"str"}
         if isinstance(v, tuple):
@@ -548,6 +548,9 @@ class Executor:
                 v = self.ev(x, env)
                 t = self.truth(v)
                 vals.append(t)
+                ts = z3.simplify(t)
+                if (isinstance(e.op, ast.And) and z3.is_false(ts)) or (isinstance(e.op, ast.Or) and z3.is_true(ts)):
+                    break        # python short-circuit: the remaining operands are never evaluated
                 self.pc.append(t if isinstance(e.op, ast.And) else z3.Not(t))
         finally:
             del self.pc[saved:]
